@@ -357,6 +357,10 @@ def post_process_findings(banner: Optional[Banner], algs: Algorithms, client_aud
 
     def _add_terrapin_warning(db: Dict[str, Dict[str, List[List[Optional[str]]]]], category: str, algorithm_name: str) -> None:
         '''Adds a warning regarding the Terrapin vulnerability for the specified algorithm.'''
+        # Algorithms that are not in the database are already reported as unknown; there is no entry to annotate.
+        if algorithm_name not in db[category]:
+            return
+
         # Ensure that a slot for warnings exists for this algorithm.
         while len(db[category][algorithm_name]) < 3:
             db[category][algorithm_name].append([])
